@@ -290,8 +290,12 @@ pub fn eval_node<F: FnMut(&GraphColoredVertices, &str)>(
 
                     // check edge case of an empty domain (in that case we cannot restrict the domain,
                     // there would be an error)
+                    // the valid domain of the var is computed with respect to the unit BDD of the (current) graph,
+                    // so it can also be empty if the domain has no colors in common with the domains of enclosing
+                    // quantifiers (that were already used to restrict the graph)
+                    let var_domain = compute_valid_domain_for_var(graph, domain_set, &var);
                     #[cfg(feature = "verif-hooks")]
-                    if domain_set.is_empty() {
+                    if var_domain.is_empty() {
                         crate::verif_hooks::emit(crate::verif_hooks::Event::EmptyDomainShortcut {
                             op: op.to_string(),
                         });
@@ -301,10 +305,6 @@ pub fn eval_node<F: FnMut(&GraphColoredVertices, &str)>(
                             domain: domain.clone(),
                         });
                     }
-                    // the valid domain of the var is computed with respect to the unit BDD of the (current) graph,
-                    // so it can also be empty if the domain has no colors in common with the domains of enclosing
-                    // quantifiers (that were already used to restrict the graph)
-                    let var_domain = compute_valid_domain_for_var(graph, domain_set, &var);
                     if var_domain.is_empty() {
                         // the variable is no longer free, do not leave its domain behind
                         eval_context.free_var_domains.remove(&var);
